@@ -235,7 +235,7 @@ def run_labels(ck):
 
 
 # ------------------------------------------------------------------------------------------ histories
-H_LISTS = ["M_hist", "V_new", "K_retry"]
+H_LISTS = ["M_hist", "V_hist"]
 TNAME = {0: "TBoth", 1: "TLog", 2: "TMetric"}
 
 
@@ -246,23 +246,41 @@ def hcase_to_coq(c):
         return fpid.setdefault(str(fp), len(fpid) + 1)
 
     acts, obs = [], []
+    tf = lambda b: "true" if b else "false"
     for st, ob in zip(c["steps"], c["obs"]):
-        if st["k"] == "reset":
+        k = st["k"]
+        if k == "reset":
             acts.append("CacheReset")
             obs.append("HReset")
             continue
         ss = []
-        for s_ in st["streams"]:
+        for s_ in st.get("streams") or []:
             es = coq_list(["{| e_ts := %s; e_type := %s |}" % (coq_u64(e["ts"]), TNAME[e["t"]]) for e in s_["entries"]])
             ss.append("{| s_fp := %d; s_entries := %s |}" % (fid(s_["fp"]), es))
-        acts.append("Push %s %s %s" % (coq_list(ss), "true" if st["ts_ok"] else "false", "true" if st["spl_ok"] else "false"))
+        if k == "push":
+            acts.append("Push %s %s %s" % (coq_list(ss), tf(st["ts_ok"]), tf(st["spl_ok"])))
+        elif k == "bad":
+            acts.append("PushBad %s" % coq_list(ss))
+        elif k == "begin":
+            acts.append("Begin %s" % coq_list(ss))
+        elif k == "end":
+            acts.append("End %d%%nat %s %s" % (st.get("idx", 0), tf(st["ts_ok"]), tf(st["spl_ok"])))
+        elif k == "abort":
+            acts.append("Abort %d%%nat" % st.get("idx", 0))
+        else:
+            raise ValueError("unknown step kind %r" % k)
         rows, spl = [], []
         for cl in ob["calls"] or []:
             if cl["table"] == "time_series":
                 rows += ["(%s, %d, %s)" % (r[0], fid(r[1]), r[2]) for r in cl["rows"] or []]
             elif cl["table"] == "samples":
                 spl += ["(%d, day_of %s, %s)" % (fid(r[0]), coq_u64(r[1]), r[2]) for r in cl["rows"] or []]
-        obs.append("HPush %s %s %s" % ("true" if 200 <= ob["status"] < 300 else "false", coq_list(rows), coq_list(spl)))
+        if k == "begin" and not ob["calls"]:
+            obs.append("HBegin")
+        elif k in ("bad", "abort") and ob["status"] == 400 and not ob["calls"]:
+            obs.append("HBad")
+        else:
+            obs.append("HPush %s %s %s" % (tf(200 <= ob["status"] < 300), coq_list(rows), coq_list(spl)))
     return "{| hc_id := %d; hc_actions := %s; hc_obs := %s |}" % (c["id"], coq_list(acts), coq_list(obs))
 
 
@@ -281,14 +299,26 @@ def eval_hcases(ck, name, cases):
 def show_hist(c):
     out = []
     for st, ob in zip(c["steps"], c["obs"]):
-        if st["k"] == "reset":
+        k = st["k"]
+        if k == "reset":
             out.append("cache reset")
             continue
-        out.append({"push": [{"labels": s_.get("labels") or ("pool set %d" % s_["ls"]), "fingerprint": s_["fp"], "entries": s_["entries"]} for s_ in st["streams"]],
-                    "scripted": {"series insert": "ok" if st["ts_ok"] else "FAILS", "samples insert": "ok" if st["spl_ok"] else "FAILS"},
-                    "client retry of the previous body": bool(st.get("retry")),
-                    "status": ob["status"],
-                    "inserts": [{"table": cl["table"], "ok": cl["ok"], "rows": cl["rows"]} for cl in ob["calls"] or []]})
+        d = {}
+        streams = [{"labels": s_.get("labels") or ("pool set %d" % s_["ls"]), "fingerprint": s_["fp"], "entries": s_["entries"]} for s_ in st.get("streams") or []]
+        scripted = {"series insert": "ok" if st["ts_ok"] else "FAILS", "samples insert": "ok" if st["spl_ok"] else "FAILS"}
+        if k == "push":
+            d = {"push": streams, "scripted": scripted, "client retry of the previous body": bool(st.get("retry"))}
+        elif k == "bad":
+            d = {"push whose body is malformed after these streams": streams}
+        elif k == "begin":
+            d = {"push begins, body stays open after these streams": streams}
+        elif k == "end":
+            d = {"open push number %d (oldest = 0) completes" % st.get("idx", 0): scripted}
+        elif k == "abort":
+            d = {"open push number %d (oldest = 0) continues with a malformed body" % st.get("idx", 0): True}
+        d["status"] = ob["status"]
+        d["inserts"] = [{"table": cl["table"], "ok": cl["ok"], "rows": cl["rows"]} for cl in ob["calls"] or []]
+        out.append(d)
     return out
 
 
@@ -331,41 +361,38 @@ def run_hist(ck):
             res[key] += r[key]
     ck.obligation("correspondence: model SeriesIndex.run_obs = implementation (status, series rows sent, samples sent) on %d histories" % len(ok),
                   not res["M_hist"] and not panics, "mismatching case ids: %s" % res["M_hist"][:10])
-    ck.obligation("spec: every acknowledged sample has an inserted series row for its day (and type) in every history the guards cover",
-                  not res["V_new"], "case ids: %s" % res["V_new"][:10])
-    if res["V_new"]:
-        c = min((byid[i] for i in res["V_new"]), key=size)
-        ck.violation({"property": "C04", "part": "hist", "kind": "acknowledged sample without series row of its day and type (not explained by a push after a failed series insert)",
-                      "case": c, "readable": show_hist(c), "explanation": "hv_new (model/SeriesIndex.v) on the observed inserts",
+    ck.obligation("spec: every acknowledged sample has a successfully inserted series row of its day and type, in every history (insert failures, retries, malformed bodies, overlapping pushes, resets)",
+                  not res["V_hist"], "case ids: %s" % res["V_hist"][:10])
+    if res["V_hist"]:
+        c = min((byid[i] for i in res["V_hist"]), key=size)
+        ck.violation({"property": "C04", "part": "hist", "kind": "acknowledged sample without series row of its day and type",
+                      "case": c, "readable": show_hist(c), "explanation": "hv (model/SeriesIndex.v) on the observed inserts",
                       "replay": "seriesid --mode hist --cases <file with this case>"})
     elif res["M_hist"]:
         c = min((byid[i] for i in res["M_hist"]), key=size)
         ck.violation({"property": "C04", "part": "hist", "kind": "model/implementation disagree; spec oracle still accepts",
                       "case": c, "readable": show_hist(c)}, no_input=True)
-    kf = ck.known_findings()
-    for key, fid_, what in (("K_retry", "retry-after-failed-series-insert", "push after a failed series insert (no cache reset in between) is acknowledged without series row"),):
-        if not res[key]:
-            continue
-        c = min((byid[i] for i in res[key]), key=size)
-        if fid_ in kf:
-            ck.report_known(fid_, "%d of %d generated histories: %s; smallest: %s" % (len(res[key]), len(ok), what, json.dumps(show_hist(c))[:700]))
-        else:
-            ck.violation({"property": "C04", "part": "hist", "kind": what, "case": c, "readable": show_hist(c),
-                          "replay": "seriesid --mode hist --cases <file with this case>"})
     distinct = set()
     hist = {}
+    kinds = {}
     for c in cases:
         hist[c["class"]] = hist.get(c["class"], 0) + 1
-        if sum(1 for st in c["steps"] if st["k"] == "push") >= 2:
+        if sum(1 for st in c["steps"] if st["k"] in ("push", "bad", "begin")) >= 2:
             distinct.add(json.dumps(c["steps"]))
+        for st in c["steps"]:
+            kinds[st["k"]] = kinds.get(st["k"], 0) + 1
     ck.coverage["evaluations"] += len(cases)
     ck.coverage["distinct_nontrivial"] += len(distinct)
     ncol = sum(1 for c in cases if c["class"].startswith("collision"))
     ck.obligation("histories with series whose announcement keys agree on 32 bits were generated", ncol >= 9, "%d collision histories" % ncol)
-    ck.coverage["rule"] += ("hist: histories of 1..8 steps (push of 1..3 streams over 4 label sets and 2 days incl. instants at midnight, client retry of the previous body, cache reset) "
+    ck.coverage["rule"] += ("hist: histories of 1..8 steps (push of 1..3 streams over 4 label sets and 2 days incl. instants at midnight, client retry of the previous body, "
+                            "push whose body is malformed after its streams, push whose body stays open while other steps run and is completed or continued malformed later in any order, cache reset) "
                             "with scripted outcomes of the series and the samples insert, plus 36 two-series histories whose announcement keys agree on the low / middle / high 32 bits, run through the in-process writer built by the production wiring (plugin.CreateStaticServiceRegistry: real GoCache and serializer); non-trivial = at least 2 pushes, distinct by content. ")
     ck.extra["hist_input_classes"] = hist
-    ck.extra["hist_known"] = {"retry": len(res["K_retry"])}
+    ck.extra["hist_step_kinds"] = kinds
+    nover = sum(1 for c in cases if c["class"].startswith("overlap"))
+    nbad = sum(1 for c in cases if any(st["k"] in ("bad", "abort") for st in c["steps"]))
+    ck.obligation("histories with overlapping pushes and with malformed bodies were generated", nover >= 10 and nbad >= 10, "%d overlapping, %d with a malformed body" % (nover, nbad))
     ck.add_samples([show_hist(c) for c in cases if len(c["steps"]) >= 2][:1])
 
 
@@ -495,7 +522,7 @@ def run(ck):
         "C04: city.CH64 on label strings is an oracle (per-case table from the exported function); Hash128to64 and CH64 over the 24 accumulator bytes are transcribed and checked by the correspondence; FingerPrintType = CityHash (default) only",
         "C04: strconv.IsPrint on runes > 0xFF is an oracle table; ClickHouse's JSON functions are assumed to accept exactly RFC 8259 (LabelJson.v) on these documents",
         "C04: fingerprint injectivity is conditional on collision-freeness hypotheses that are tested, not proved",
-        "C04 histories: the (day, fingerprint, type) cache key CH64(day || fp || type) is modelled as the triple itself (no collisions); fastcache has no false positives; the cache is the production GoCache; a cache reset runs the ticker's body through hook VerifC04Reset; CH64 collision-freeness of the 64-bit key is a hypothesis of announcement_cache_refines; requests stay below the 1 MiB mid-request flush; single node (the cache is disabled in cluster mode)",
+        "C04 histories: the (day, fingerprint, type) cache key CH64(day || fp || type) is modelled as the triple itself (no collisions); fastcache has no false positives; the cache is the production GoCache; a cache reset runs the ticker's body through hook VerifC04Reset; CH64 collision-freeness of the 64-bit key is a hypothesis of announcement_cache_refines; requests stay below the 1 MiB mid-request flush; single node (the cache is disabled in cluster mode); the two inserts of a request and the cache update after them are one atomic step of the model (End); overlapping requests are driven through bodies that stay open (io.Pipe), one completion at a time",
         "C04 dates: ch-go's ToDate and Go's time.Truncate are transcribed (checked by the correspondence over 32 zones); the reader's own zone (upper date bound) belongs to C13",
     ]
     ck.coq_props()
